@@ -249,6 +249,19 @@ def oracle(case, res):
                             bad.append("%s: transform(%s)[%d,%d] = %r where the input is 0" % (tag, nm, i, j, y))
                         elif not close(y, x * w[j], TOL["transform_rel"], 0.0):
                             bad.append("%s: transform(%s)[%d,%d] = %r, input * weight = %r" % (tag, nm, i, j, y, x * w[j]))
+            # histories: after every refit of the same object, transform still scales by the CURRENT learned weights
+            for h in r.get("history", []):
+                if "err" in h:
+                    continue        # what a refit accepts is not part of the claim
+                w2 = [fl(x) for x in h["w"]]
+                if any((x != x) or not math.isfinite(x) for x in w2):
+                    continue        # degenerate refit (known finding stream)
+                T2 = [[fl(x) for x in row] for row in h["tx"]]
+                for i, row in enumerate(X):
+                    for j, x in enumerate(row):
+                        if not close(T2[i][j], x * w2[j], TOL["transform_rel"], 0.0):
+                            bad.append("%s: after %s, transform(X)[%d,%d] = %r but input * current weight = %r"
+                                       % (tag, h["mode"], i, j, T2[i][j], x * w2[j]))
             for i in range(len(X)):
                 for j in range(len(X[0])):
                     exp = a * TX[i][j] + b * TZ[i][j]
